@@ -230,4 +230,108 @@ theorem pickScheme_spec (rs os : List Bytes) :
     subst hr; subst ho
     rfl
 
+
+/-! ### T4: query precedence — caller over pattern over base path -/
+
+theorem get_set (vs : Values) (k k' : Bytes) (v : List Bytes) :
+    (vs.set k v).get k' = if k == k' then some v else vs.get k' := by
+  unfold Values.set Values.get Values.del
+  induction vs with
+  | nil =>
+    simp only [List.filter_nil, List.nil_append, List.find?_cons, List.find?_nil]
+    split <;> simp_all
+  | cons x xs ih =>
+    simp only [List.filter_cons]
+    by_cases hx : (x.1 != k) = true
+    · simp only [hx, ↓reduceIte, List.cons_append, List.find?_cons]
+      by_cases hxk : (x.1 == k') = true
+      · have : (k == k') = false := by
+          simp only [bne_iff_ne, ne_eq, beq_iff_eq] at hx hxk
+          simp only [beq_eq_false_iff_ne, ne_eq]
+          intro h; exact hx (hxk.trans h.symm)
+        simp [hxk, this]
+      · simp only [hxk, Bool.false_eq_true]
+        exact ih
+    · have hxk : x.1 = k := by simpa using hx
+      simp only [hx, Bool.false_eq_true, ↓reduceIte, List.find?_cons]
+      rw [ih]
+      by_cases hkk : (k == k') = true
+      · simp [hkk]
+      · have : (x.1 == k') = false := by rw [hxk]; simpa using hkk
+        simp [hkk, this]
+
+theorem get_cons (kv : Bytes × List Bytes) (vs : Values) (k : Bytes) :
+    Values.get (kv :: vs) k = if kv.1 == k then some kv.2 else Values.get vs k := by
+  unfold Values.get
+  simp only [List.find?_cons]
+  split <;> simp_all
+
+theorem get_none_of_not_mem (vs : Values) (k : Bytes) (h : k ∉ vs.map (·.1)) : Values.get vs k = none := by
+  induction vs with
+  | nil => rfl
+  | cons x xs ih =>
+    simp only [List.map_cons, List.mem_cons, not_or] at h
+    rw [get_cons]
+    have : (x.1 == k) = false := by
+      simp only [beq_eq_false_iff_ne, ne_eq]; exact fun e => h.1 e.symm
+    simp only [this, Bool.false_eq_true, ↓reduceIte]
+    exact ih h.2
+
+theorem staticQuery_get (b p : Values) (hp : (p.map (·.1)).Nodup) (k : Bytes) :
+    (staticQuery b p).get k = (Values.get p k).or (Values.get b k) := by
+  unfold staticQuery
+  induction p generalizing b with
+  | nil => simp [Values.get]
+  | cons kv ps ih =>
+    simp only [List.map_cons, List.nodup_cons] at hp
+    simp only [List.foldl_cons]
+    rw [ih _ hp.2, get_set, get_cons]
+    by_cases hk : (kv.1 == k) = true
+    · have hk' : kv.1 = k := by simpa using hk
+      have : Values.get ps k = none := get_none_of_not_mem ps k (by rw [← hk']; exact hp.1)
+      simp [hk, this]
+    · simp [hk]
+
+theorem finalFold_get (s acc : Values) (k : Bytes) :
+    (s.foldl (fun acc kv => if (acc.get kv.1).isSome then acc else acc.set kv.1 kv.2) acc).get k =
+      (Values.get acc k).or (Values.get s k) := by
+  induction s generalizing acc with
+  | nil => simp [Values.get]
+  | cons kv ss ih =>
+    simp only [List.foldl_cons]
+    rw [ih, get_cons]
+    by_cases hs : (Values.get acc kv.1).isSome = true
+    · simp only [hs, ↓reduceIte]
+      by_cases hk : (kv.1 == k) = true
+      · have hk' : kv.1 = k := by simpa using hk
+        rw [hk'] at hs
+        cases hg : Values.get acc k with
+        | none => rw [hg] at hs; cases hs
+        | some v => simp
+      · simp [hk]
+    · simp only [hs, Bool.false_eq_true, ↓reduceIte]
+      rw [get_set]
+      by_cases hk : (kv.1 == k) = true
+      · have hk' : kv.1 = k := by simpa using hk
+        have hn : Values.get acc k = none := by
+          rw [hk'] at hs
+          cases hg : Values.get acc k with
+          | none => rfl
+          | some v => rw [hg] at hs; simp at hs
+        simp [hk, hn]
+      · simp [hk]
+
+/-- **T4**: for every name, the final query carries the caller's values if the caller set the
+name, else the pattern's static values, else the base path's — and nothing else is lost.
+(`pattern`'s keys are distinct: it is a Go map.) -/
+theorem query_precedence (base pattern caller : Values) (hp : (pattern.map (·.1)).Nodup) (k : Bytes) :
+    (finalQuery base pattern caller).get k =
+      (Values.get caller k).or ((Values.get pattern k).or (Values.get base k)) := by
+  unfold finalQuery
+  rw [finalFold_get, staticQuery_get base pattern hp]
+
+example : (finalQuery [([97], [[49]])] [([97], [[50]]), ([98], [[51]])] [([98], [[52]])]).get [97] = some [[50]] ∧
+    (finalQuery [([97], [[49]])] [([97], [[50]]), ([98], [[51]])] [([98], [[52]])]).get [98] = some [[52]] := by
+  decide
+
 end RtVerif.C10
